@@ -11,7 +11,10 @@ VERIF = os.path.dirname(os.path.dirname(os.path.abspath(__file__)))
 REPO = os.environ.get("VERIF_REPO", "/repo")
 SCRATCH_ROOT = os.environ.get("VERIF_SCRATCH", "/var/tmp/verif-scratch")
 CACHE = os.environ.get("VERIF_CACHE", os.path.join(VERIF, ".cache"))
-WORK = os.path.join(VERIF, "work")
+WORK = os.environ.get("VERIF_WORK", os.path.join(VERIF, "work"))
+# evidence is always written to /verif/evidence unless a seeded-change trial redirects it (tools/try_seed.sh)
+EVIDENCE = os.environ.get("VERIF_EVIDENCE", os.path.join(VERIF, "evidence"))
+REPLAY_OUT = os.environ.get("VERIF_REPLAY_OUT", os.path.join(VERIF, "replay"))
 
 
 class Undecided(Exception):
@@ -88,7 +91,7 @@ class Report:
     def violation(self, obligation, detail, witness=None, replay_text=None, confirmed=False):
         """Record a failed obligation.  witness: a short string identifying the failing
         input / call site (matched against known_findings.json)."""
-        d = os.path.join(VERIF, "replay", self.prop)
+        d = os.path.join(REPLAY_OUT, self.prop)
         os.makedirs(d, exist_ok=True)
         safe = re.sub(r"[^A-Za-z0-9_.-]", "_", obligation)[:80]
         path = os.path.join(d, safe + ".json")
@@ -116,6 +119,11 @@ class Report:
                 new.append(v)
         for hit, v in seen_known:
             print("KNOWN-FINDING: property=%s %s" % (self.prop, hit.get("what", v["obligation"])))
+        # obligations that fail only because of a listed known finding are reported separately, not counted
+        known_names = set(v["obligation"] for _, v in seen_known)
+        known_obls = [o for o in self.obligations + self.bounded if o["name"] in known_names]
+        self.obligations = [o for o in self.obligations if o["name"] not in known_names]
+        self.bounded = [o for o in self.bounded if o["name"] not in known_names]
         n_obl = len(self.obligations)
         n_dis = sum(1 for o in self.obligations if o["status"] == "discharged")
         cov = {
@@ -133,6 +141,7 @@ class Report:
             "cut_sha256_16": self.cuts,
             "vacuity_guards": self.guards,
             "not_covered": self.not_covered,
+            "known_finding_obligations": known_obls,
             "undecided": self.undecided,
             "samples": ([o["name"] for o in self.obligations] + [b["name"] + " [bounded: " + str(b["bound"]) + "]" for b in self.bounded])[:40] or ["none"],
             "evaluations": max(1, n_obl + len(self.bounded)),
@@ -146,8 +155,8 @@ class Report:
             "wall_s": round(time.time() - self.t0, 2), "violations": len(new),
             "known_findings_seen": [h.get("what") for h, _ in seen_known],
         }
-        os.makedirs(os.path.join(VERIF, "evidence"), exist_ok=True)
-        json.dump(ev, open(os.path.join(VERIF, "evidence", self.prop + ".json"), "w"), indent=1)
+        os.makedirs(EVIDENCE, exist_ok=True)
+        json.dump(ev, open(os.path.join(EVIDENCE, self.prop + ".json"), "w"), indent=1)
         for v in new:
             tail = "" if v["confirmed"] else " no-failing-input-found"
             print("VIOLATION property=%s replay=%s%s" % (self.prop, v["replay"], tail))
